@@ -79,24 +79,12 @@ View == <<st, phase, nTx, nFail>>
 
 \* alphabet sweep: from a prepared state, every transaction class of the alphabet once (no rationing),
 \* followed by one more block; explored breadth-first so that each class is replayed on the real code
-ApplyAll(s, evs) == FoldL(LAMBDA e, acc : Step(acc, e).st, s, evs)
 SweepPrefix == << [a |-> "BeginBlock", dt |-> 1000],
                   TxFee(<<[t |-> "WReg", owner |-> "A1", moniker |-> "m", name |-> "n", genesis |-> "g", type |-> "t"]>>, [nund |-> 4]),
                   TxFee(<<[t |-> "BReg", owner |-> "A1", moniker |-> "m", name |-> "n"]>>, [nund |-> 4]),
                   TxFee(<<WRec("A1", 1, 1)>>, [nund |-> 1]), TxFee(<<WRec("A1", 1, 2)>>, [nund |-> 1]),
                   TxFee(<<BRec("A1", 1)>>, [nund |-> 1]), TxFee(<<BRec("A1", 1)>>, [nund |-> 1]),
                   EndEv, ComEv, [a |-> "BeginBlock", dt |-> 1000] >>
-SweepInit == /\ st = ApplyAll(StateOf(Gen), SweepPrefix) /\ phase = "block"
-             /\ hist = <<[a |-> "InitChain", g |-> Gen]>> \o SweepPrefix /\ nTx = 0 /\ nFail = 0
-SweepNext ==
-  \/ /\ phase = "block" /\ nTx = 0
-     /\ \E ev \in TxAlphabet :
-          LET r == Step(st, ev) IN
-          st' = r.st /\ hist' = Append(hist, ev) /\ nTx' = 1 /\ UNCHANGED <<phase, nFail>>
-  \/ /\ phase = "block" /\ nTx = 1
-     /\ LET tail == <<EndEv, ComEv, [a |-> "BeginBlock", dt |-> 1000], EndEv, ComEv>> IN
-        st' = ApplyAll(st, tail) /\ hist' = hist \o tail /\ phase' = "done" /\ UNCHANGED <<nTx, nFail>>
-SpecSweep == SweepInit /\ [][SweepNext]_vars
 
 PresetsQuick == << [feeReg |-> 4, feeRec |-> 1, feePur |-> 1, denom |-> "nund", def |-> 2, max |-> 2],
                    [feeReg |-> 4, feeRec |-> 1, feePur |-> 1, denom |-> "nund", def |-> 1, max |-> 1] >>
